@@ -516,7 +516,7 @@ main(int argc, char **argv)
 		} else if (!strcmp(cmd, "http")) {
 			int         c = atoi(a[0]), expclosed = lenient ? 0 : atoi(a[2]), status = 0, wf = 1, then_close = 0;
 			const char *k = a[1];
-			char        req[1024];
+			static char req[40000], pad[30000];
 			const char *own   = is_push ? "push" : "pull";
 			uint64_t    end   = now_ms() + (lenient ? 300 : 8000);
 			char       *eoh   = NULL;
@@ -547,6 +547,25 @@ main(int argc, char **argv)
 				ver = "Sec-WebSocket-Version: 8\r\n";
 			} else if (!strcmp(k, "chunked")) {
 				extra = "Transfer-Encoding: chunked\r\n";
+			} else if (!strcmp(k, "many_headers")) {
+				// more header bytes than the server's read buffer (8160) holds, in short lines: still a good request
+				size_t n = 0;
+				for (int i = 0; i < 110; i++) {
+					n += (size_t) snprintf(pad + n, sizeof(pad) - n, "X-Pad-%03d: %.80s\r\n", i,
+					    "abcdefghijklmnopqrstuvwxyzabcdefghijklmnopqrstuvwxyzabcdefghijklmnopqrstuvwxyzabcdefgh");
+				}
+				extra = pad;
+			} else if (!strcmp(k, "long_header") || !strcmp(k, "long_uri")) {
+				// a single line that can never fit the server's read buffer
+				size_t n = (size_t) snprintf(pad, sizeof(pad), k[5] == 'h' ? "X-Long: " : "GET /sp?");
+				memset(pad + n, 'a', 9000);
+				n += 9000;
+				snprintf(pad + n, sizeof(pad) - n, k[5] == 'h' ? "\r\n" : " HTTP/1.1\r\n");
+				if (k[5] == 'h') {
+					extra = pad;
+				} else {
+					line1 = pad;
+				}
 			} else if (!strcmp(k, "garbage")) {
 				line1 = "\x01\x02 garbage\r\n";
 			} else if (!strcmp(k, "short_close")) {
